@@ -124,6 +124,30 @@ fn observe(args: &[Sexp], limit: Option<usize>) -> Option<Result<Demand, String>
     Some(Ok(Demand { before_first, pulls, after_drop, n_starts }))
 }
 
+/// Independent demand, from the implementation alone: the query is run once per listed starting vertex
+/// (a table whose only starting vertex is that one), which gives the number of rows each starting
+/// vertex contributes; row k of the full run then comes from the first starting vertex whose cumulative
+/// row count reaches k, and that 1-based position is what the pull counter must show after row k.
+/// `None` = not applicable (frontend / argument error, stale IR).
+fn start_blocks(args: &[Sexp]) -> Option<Vec<usize>> {
+    let r = parse_request(args)?;
+    let p = prepare(r.schema, r.data, &r.text)?;
+    let q = p.query.as_ref().ok()?.clone();
+    if p.table.starts.len() != 1 {
+        return None;
+    }
+    let (key, starts) = p.table.starts.iter().next().map(|(k, v)| (k.clone(), v.clone()))?;
+    let mut blocks = vec![];
+    for v in starts {
+        let mut table = p.table.clone();
+        table.starts.insert(key.clone(), vec![v]);
+        let adapter = TableAdapter::new(&p.schema.gen_schema, table);
+        let rows = interpret_ir(Arc::new(adapter), q.clone(), real_args(&r.args)).ok()?;
+        blocks.push(rows.count());
+    }
+    Some(blocks)
+}
+
 fn render_pulls(p: &[usize]) -> String {
     format!("(pulls{})", p.iter().map(|x| format!(" {x}")).collect::<String>())
 }
@@ -131,7 +155,7 @@ fn render_pulls(p: &[usize]) -> String {
 #[derive(Default)]
 pub struct C03 {
     stats: RefCell<GenStats>,
-    checked: RefCell<(usize, usize)>,
+    checked: RefCell<(usize, usize, usize)>,
 }
 
 impl Prop for C03 {
@@ -139,7 +163,7 @@ impl Prop for C03 {
         "C03"
     }
     fn rule(&self) -> &'static str {
-        "the worlds of the engine generator (schemas x 2 datasets x ~10 accepted queries per seed). Each (schema, dataset, query, args) is sent as (demand ...): the implementation runs interpret_ir over a table adapter whose starting-vertex iterator counts how many vertices were pulled, and answers (pulls p1 ... pK) = the counter right after each of the K rows was handed out (model = Lazy.pullsFor over the per-start-vertex row blocks of Interp). Oracle on the implementation: the counter is 0 after interpret_ir returns and before the first next() (pulled-before-first-request); p is monotone (pulls-not-monotone) and p_K <= number of starting vertices (pulled-more-than-exist); for prefixes k in {0, 1, K/2} a fresh run that takes k rows and drops the iterator shows the same counter as the full run at row k and the counter does not move by dropping (pulls-after-drop / prefix-run-differs). The generator appends its DIRECTED tagged-regex worlds (quick 4, thorough 40 worlds x 2 datasets x 8 queries; engine/tagged_regex.rs): a regex / not_regex filter whose operand is a @tag, on the same vertex / a neighbour / inside @optional / inside a (nested) @fold, over datasets whose tagged String values come in runs of equal values (valid patterns, invalid patterns, null) over consecutive STARTING vertices - the shape on which a filter that batches or looks ahead over equal tag values pulls starting vertices beyond the one that contributes the row (nt:tagged-regex-stream: such a query over >= 2 starting vertices). A case is non-trivial (nt:multi-start) when the dataset lists >= 2 starting vertices for the query's root edge and the query returns >= 1 row; nt:early-row when additionally the first row is handed out before all starting vertices were pulled."
+        "the worlds of the engine generator (schemas x 2 datasets x ~10 accepted queries per seed). Each (schema, dataset, query, args) is sent as (demand ...): the implementation runs interpret_ir over a table adapter whose starting-vertex iterator counts how many vertices were pulled, and answers (pulls p1 ... pK) = the counter right after each of the K rows was handed out (model = Lazy.pullsFor over the per-start-vertex row blocks of Interp). Oracle on the implementation: the counter is 0 after interpret_ir returns and before the first next() (pulled-before-first-request); p is monotone (pulls-not-monotone) and p_K <= number of starting vertices (pulled-more-than-exist); the query is also run over each listed starting vertex alone, which gives the number of rows each one contributes, and p_k must be exactly the position of the starting vertex that contributes row k (pulled-beyond-contributing-start / pulled-less-than-contributing-start; rows-differ-from-start-blocks when the full run is not the concatenation of those blocks); for prefixes k in {0, 1, K/2} a fresh run that takes k rows and drops the iterator shows the same counter as the full run at row k and the counter does not move by dropping (pulls-after-drop / prefix-run-differs). The generator appends its DIRECTED tagged-regex worlds (quick 4, thorough 40 worlds x 2 datasets x 8 queries; engine/tagged_regex.rs): a regex / not_regex filter whose operand is a @tag, on the same vertex / a neighbour / inside @optional / inside a (nested) @fold, over datasets whose tagged String values come in runs of equal values (valid patterns, invalid patterns, null) over consecutive STARTING vertices - the shape on which a filter that batches or looks ahead over equal tag values pulls starting vertices beyond the one that contributes the row (nt:tagged-regex-stream: such a query over >= 2 starting vertices). A case is non-trivial (nt:multi-start) when the dataset lists >= 2 starting vertices for the query's root edge and the query returns >= 1 row; nt:early-row when additionally the first row is handed out before all starting vertices were pulled."
     }
     fn generate(&self, tier: Tier, rng: &mut Rng) -> Vec<Case> {
         let (worlds, stats) = generate_worlds(rng, &WorldKnobs::for_tier(tier));
@@ -171,7 +195,7 @@ impl Prop for C03 {
     fn oracle(&self, evaluated: &[Evaluated]) -> Vec<OracleFailure> {
         // panics of known-defective queries are C09's business: both sides answer `panic` here
         let mut fails = vec![];
-        let (mut runs, mut prefix_runs) = (0usize, 0usize);
+        let (mut runs, mut prefix_runs, mut block_runs) = (0usize, 0usize, 0usize);
         for e in evaluated {
             let Some(("demand", args)) = e.request.as_call() else { continue };
             if e.panic_info.is_some() {
@@ -195,6 +219,29 @@ impl Prop for C03 {
             if render_pulls(&full.pulls) != e.answer {
                 fail("rerun-differs", format!("first {} second {}", e.answer, render_pulls(&full.pulls)));
             }
+            // exact demand against the per-starting-vertex blocks measured on the implementation itself
+            if let Ok(Some(blocks)) = guarded(|| start_blocks(args)) {
+                block_runs += blocks.len();
+                let expected: Vec<usize> = blocks.iter().enumerate().flat_map(|(i, b)| std::iter::repeat_n(i + 1, *b)).collect();
+                if expected.len() != full.pulls.len() {
+                    fail(
+                        "rows-differ-from-start-blocks",
+                        format!("{} rows in the full run, {} in the runs over one starting vertex each (blocks {blocks:?})", full.pulls.len(), expected.len()),
+                    );
+                } else if let Some(k) = (0..expected.len()).find(|k| full.pulls[*k] != expected[*k]) {
+                    fail(
+                        if full.pulls[k] > expected[k] { "pulled-beyond-contributing-start" } else { "pulled-less-than-contributing-start" },
+                        format!(
+                            "row {} comes from starting vertex #{} but {} starting vertices had been pulled when it was handed out | observed {} | expected {} | rows per starting vertex {blocks:?}",
+                            k + 1,
+                            expected[k],
+                            full.pulls[k],
+                            render_pulls(&full.pulls),
+                            render_pulls(&expected)
+                        ),
+                    );
+                }
+            }
             let k_total = full.pulls.len();
             let mut prefixes = vec![0usize, 1, k_total / 2];
             prefixes.retain(|k| *k <= k_total);
@@ -215,7 +262,7 @@ impl Prop for C03 {
                 }
             }
         }
-        *self.checked.borrow_mut() = (runs, prefix_runs);
+        *self.checked.borrow_mut() = (runs, prefix_runs, block_runs);
         fails
     }
     fn post_tags(&self, e: &Evaluated) -> Vec<String> {
@@ -247,8 +294,8 @@ impl Prop for C03 {
         t
     }
     fn extra_stats(&self, _evaluated: &[Evaluated]) -> serde_json::Value {
-        let (runs, prefix_runs) = *self.checked.borrow();
-        serde_json::json!({"generator": self.stats.borrow().to_json(), "full_runs_checked": runs, "prefix_runs_checked": prefix_runs})
+        let (runs, prefix_runs, block_runs) = *self.checked.borrow();
+        serde_json::json!({"generator": self.stats.borrow().to_json(), "full_runs_checked": runs, "prefix_runs_checked": prefix_runs, "single_start_runs_checked": block_runs})
     }
 }
 
